@@ -249,6 +249,11 @@ func c35States() []c35State {
 				for _, t2 := range []time.Duration{540 * ms, 560 * ms, 640 * ms, 660 * ms} {
 					scripts = append(scripts, []c35Action{{100 * ms, "remove"}, {t2, "toS"}})
 				}
+				// pinned to the departing endpoint until tau, then the record disappears for good: the
+				// not-found mask starts late, after part of the caller's budget is already spent
+				for _, t1 := range []time.Duration{49 * ms, 51 * ms, 149 * ms, 151 * ms, 349 * ms, 351 * ms, 649 * ms, 651 * ms} {
+					scripts = append(scripts, []c35Action{{t1, "remove"}})
+				}
 			}
 			for _, sc := range scripts {
 				for _, dead := range []string{"refuse", "blackhole"} {
@@ -265,14 +270,14 @@ func c35States() []c35State {
 func TestVerifC35(t *testing.T) {
 	defer vsched.Finish(t)
 	ms := time.Millisecond
-	timeouts := []time.Duration{1 * ms, 50 * ms, relocationHandoffWindow - ms, relocationHandoffWindow, relocationHandoffWindow + ms, 10 * time.Second}
+	timeouts := []time.Duration{1 * ms, 50 * ms, 700 * ms, time.Second, relocationHandoffWindow - ms, relocationHandoffWindow, relocationHandoffWindow + ms, 10 * time.Second}
 	if vsched.Rep().Thorough() { // more deadlines inside the window (none coincides with a script instant)
-		timeouts = append(timeouts, 120*ms, 400*ms, time.Second, 2*time.Second)
+		timeouts = append(timeouts, 120*ms, 400*ms, 2*time.Second)
 	}
 	states := c35States()
 	e := vsched.NewEnum("handoff", map[string]any{
 		"timeouts": fmt.Sprint(timeouts), "states": len(states),
-		"state_space": "mark {none, fresh, window-10ms old} x record {->E, absent} x script {none, ->S at tau, recreated locally at tau, removed@100ms then ->S} x E {refuse, blackhole} x S latency {0,(thorough: 100ms),never}; tau = back-off boundaries +-1ms (thorough: more of them)",
+		"state_space": "mark {none, fresh, window-10ms old} x record {->E, absent} x script {none, ->S at tau, recreated locally at tau, removed@100ms then ->S, removed at tau for good} x E {refuse, blackhole} x S latency {0,(thorough: 100ms),never}; tau = back-off boundaries +-1ms (thorough: more of them)",
 		"window":      relocationHandoffWindow.String(), "not_found_mask": relocationNotFoundMaskWindow.String(),
 	})
 	defer e.Done()
